@@ -21,7 +21,7 @@ while read prop commit id; do
   (cd "$scr" && git checkout -q -- . && git clean -qfd)
   # companion commits that fix the same defect in a sibling package are reverted together
   commits="$commit"
-  case "$commit" in 55e0ad0) commits="a53e338 55e0ad0";; 45c17df) commits="62c46ef 45c17df";; esac
+  case "$commit" in 55e0ad0) commits="a53e338 55e0ad0";; 45c17df) commits="62c46ef 45c17df";; ee1b455) commits="df7a6bc ee1b455";; esac  # df7a6bc rewrote the lines ee1b455 added
   ok=1
   for c in $commits; do (cd "$scr" && git revert --no-commit "$c" >/dev/null 2>&1) || ok=0; done
   if [ $ok = 0 ]; then echo "$id $prop $commit REVERT-CONFLICT" | tee -a "$out"; (cd "$scr" && git revert --abort 2>/dev/null; git reset -q --hard HEAD); continue; fi
